@@ -1268,4 +1268,443 @@ example := C14_interleaved_cover exPerm exCfg ⟨5, 5, 1, 3⟩ [.newIter, .next 
   [[1], [4]] (by decide) rfl (by
     simp [epochBatches, EpochSampler.samples, EpochSampler.islice, EpochSampler.everyNth, exPerm, exCfg]
     rfl) (by decide)
+
+/-! ## loaders: public attributes assigned after construction; collation = a function of the items
+and the options AT THE TIME OF THE CALL
+
+`View` (in `Model/Batching.lean`) = a `Session` + the flags stored on the loader (`batch_first`,
+`sort_batch`) and on its data set (`suppress_alis`, `suppress_uttids`, `tokens_only`). A script may
+assign any of them at any point (`VOp.assign`), also between two `next` calls of a live iterator.
+In the model `collate_fn` is a bound method reading the stored flags at every call. The theorems:
+what a call shows is (the index batch the session hands out, the flags as last assigned before the
+call); assignments never touch the session; assigning after construction is constructing with the
+value; hence every batch is `lang_seq_to_batch` / `spect_seq_to_batch` of its utterances under the
+flags in force at that call, and the lossless statements hold for it in the layout the loader
+reports. That the real classes read the attributes at every call (and did not freeze them into a
+closure at construction) is what the correspondence checks. -/
+
+/-- The trace entries of the `Session` operations of a script. -/
+def ioTrace (tr : List (VOp × Out × Present)) : List (IOp × Out) :=
+  tr.filterMap (fun e => match e.1 with | .io o => some (o, e.2.1) | _ => none)
+
+/-- **C14_attr_frame**: assignments to `batch_first`, `sort_batch`, `suppress_alis`, `suppress_uttids`,
+`tokens_only` - anywhere in a script, any number of them - change nothing of what the `Session`
+theorems speak about: every operation shows the same index batches / `len()` / samples / epoch it
+shows in the script with the assignments removed, and the loader, its sampler and all live iterators
+end in the same state. (So `C14_seed_epoch_interleaved`, `C14_interleaved_cover`, `C14_len_interleaved`,
+.. apply verbatim to scripts with assignments.) -/
+theorem C14_attr_frame (perm : Nat → List Nat) : ∀ (script : List VOp) (v : View),
+    (∀ d, VOp.setDrop d ∉ script) →
+    ioTrace (View.exec perm script v).1 = (Session.exec perm (ioOps script) v.session).1 ∧
+    (View.exec perm script v).2.session = (Session.exec perm (ioOps script) v.session).2 := by
+  intro script
+  induction script with
+  | nil => intro v _; exact ⟨rfl, rfl⟩
+  | cons op ops ih =>
+    intro v h
+    have h' : ∀ d, VOp.setDrop d ∉ ops := fun d hd => h d (List.mem_cons_of_mem _ hd)
+    cases op with
+    | io o =>
+      obtain ⟨i1, i2⟩ := ih (View.step perm (.io o) v).2 h'
+      refine ⟨?_, i2⟩
+      have i1' : ioTrace (View.exec perm ops (View.step perm (.io o) v).2).1
+          = (Session.exec perm (ioOps ops) (Session.step perm o v.session).2).1 := i1
+      show ioTrace ((VOp.io o, (Session.step perm o v.session).1, v.present)
+          :: (View.exec perm ops (View.step perm (.io o) v).2).1)
+        = (o, (Session.step perm o v.session).1) :: (Session.exec perm (ioOps ops) (Session.step perm o v.session).2).1
+      rw [← i1']
+      rfl
+    | assign a b =>
+      obtain ⟨i1, i2⟩ := ih (View.step perm (.assign a b) v).2 h'
+      exact ⟨i1, i2⟩
+    | setDrop d => exact absurd List.mem_cons_self (h d)
+
+/-- **C14_collate_call_time** (collation is a function of the items and the options at the time of
+the call): in ANY script `pre ++ op :: post` run on a loader constructed with ANY flags, the
+operation `op` (a `next(it_k)`, a full pass, ..) shows
+* the index-level output the session gives after the `Session` operations of `pre` - by
+  `C14_attr_frame` / the `Session` theorems a function of the constructor arguments and (seed, epoch),
+  untouched by any assignment -, paired with
+* the flags as last assigned in `pre` (the constructor's value for an attribute never assigned) -
+  not the flags at construction, not those at `iter(loader)` or at the iterator's first batch, and
+  nothing that is assigned in `post`.
+So with any collate function `deliver flags batch`, what the caller sees is
+`deliver (presentAfter flags₀ pre) batch`. -/
+theorem C14_collate_call_time (perm : Nat → List Nat) (pre post : List VOp) (o : IOp) (v : View)
+    (hpre : ∀ d, VOp.setDrop d ∉ pre) :
+    (View.exec perm (pre ++ VOp.io o :: post) v).1[pre.length]?
+      = some (VOp.io o, (Session.step perm o (Session.exec perm (ioOps pre) v.session).2).1,
+              presentAfter v.present pre) := by
+  rw [View.exec_append]
+  have hl := View.exec_length perm pre v
+  rw [List.getElem?_append_right (by omega), hl, Nat.sub_self]
+  show some (VOp.io o, (Session.step perm o (View.exec perm pre v).2.session).1,
+      (View.exec perm pre v).2.present) = _
+  rw [View.exec_session perm pre v hpre, View.exec_present]
+
+/-- `C14_collate_call_time` read through a collate function: a `next` that hands out the index batch
+`b` shows `deliver (flags as last assigned before the call) b`. -/
+theorem C14_shown_at_call {β : Type} (deliver : Present → List Nat → β) (perm : Nat → List Nat)
+    (pre post : List VOp) (o : IOp) (v : View) (hpre : ∀ d, VOp.setDrop d ∉ pre) (b : List Nat)
+    (hb : (Session.step perm o (Session.exec perm (ioOps pre) v.session).2).1 = .batch (.ok (some b))) :
+    ((View.exec perm (pre ++ VOp.io o :: post) v).1[pre.length]?).map (fun e => shown deliver e.2)
+      = some (Shown.batch (.ok (some (deliver (presentAfter v.present pre) b)))) := by
+  rw [C14_collate_call_time perm pre post o v hpre]
+  simp only [Option.map_some, hb]
+  rfl
+
+/-- **C14_assign_eq_construct** (an attribute assigned after construction = the object constructed
+with that value): running assignments `asg` and then any script on a loader constructed with flags
+`p` shows, after the assignments' own (empty) outputs, exactly what the script shows on the loader
+constructed with `asg` folded into `p` - same outputs, same flags at every call, same final state. -/
+theorem C14_assign_eq_construct (perm : Nat → List Nat) (script : List VOp) :
+    ∀ (asg : List (Attr × Bool)) (s : Session) (p : Present),
+    let p' := asg.foldl (fun q x => q.set x.1 x.2) p
+    ((View.exec perm (asg.map (fun x => VOp.assign x.1 x.2) ++ script) ⟨s, p⟩).1.drop asg.length
+        = (View.exec perm script ⟨s, p'⟩).1) ∧
+    (View.exec perm (asg.map (fun x => VOp.assign x.1 x.2) ++ script) ⟨s, p⟩).2
+        = (View.exec perm script ⟨s, p'⟩).2 := by
+  intro asg
+  induction asg with
+  | nil => intro s p; exact ⟨rfl, rfl⟩
+  | cons x asg ih =>
+    intro s p
+    obtain ⟨i1, i2⟩ := ih s (p.set x.1 x.2)
+    exact ⟨i1, i2⟩
+
+/-- `loader.batch_sampler.drop_incomplete = d` (`drop_last` for torch's `BatchSampler`) followed by
+any script = the script on the loader whose configuration has `drop := d` and the SAME epoch sampler
+(the constructor derives the sampler's `on_uneven_distributed` mode from `params.drop_last`; the
+assignment does not, so under a process group this is not the loader `Loader.new` builds for `d`).
+Definitional (`rfl`): documentation of the model, NOT counted as an obligation. -/
+theorem C14_drop_assign (perm : Nat → List Nat) (script : List VOp) (d : Bool) (cfg : LoaderCfg)
+    (smp : EpochSampler.State) (its : List LiveIter) (p : Present) :
+    (View.exec perm (.setDrop d :: script) ⟨⟨⟨cfg, smp⟩, its⟩, p⟩).1.drop 1
+      = (View.exec perm script ⟨⟨⟨{ cfg with drop := d }, smp⟩, its⟩, p⟩).1 := rfl
+
+/-- Batch-first counterpart of `C14_collate_lang_tf_lossless` with the stable-sort clause. -/
+theorem collate_lang_bf_lossless {β ι : Type} [DecidableEq β] (pad : β) (sort : Bool)
+    (items : List (List β × ι)) :
+    ∃ s : List (List β × ι),
+      s.Perm items ∧ (sort = false → s = items) ∧
+      (sort = true → IsStableDescSort (fun it : List β × ι => it.1.length) items s) ∧
+      (langCollate pad sort items).2.1 = s.map (·.1.length) ∧
+      (langCollate pad sort items).2.2 = s.map (·.2) ∧
+      cutBack (langCollate pad sort items).1 (langCollate pad sort items).2.1 = s.map (·.1) ∧
+      padCellsOk pad (langCollate pad sort items).1 (langCollate pad sort items).2.1 = true := by
+  refine ⟨if sort then sortDesc (fun it => it.1.length) items else items, ?_, ?_, ?_, ?_, ?_, ?_, ?_⟩
+  · cases sort
+    · simp
+    · simpa using sortDesc_perm _ items
+  · intro h; simp [h]
+  · intro h; subst h; simpa using sortDesc_isStable (fun it : List β × ι => it.1.length) items
+  · simp [langCollate]
+  · simp [langCollate]
+  · exact cutBack_padSequence_map pad (fun it : List β × ι => it.1) _
+  · exact padCellsOk_padSequence_map pad (fun it : List β × ι => it.1) _
+
+/-- **C14_lang_loader_lossless**: what `LangDataLoader.collate_fn` hands back for an index batch `b`
+under the flags `p` in force at the call (`langDeliver`): with `items` = the data set's elements for
+`b` as the data set presents them under `p` (`tokens_only`), there is ONE arrangement `s` of `items`
+(`items` itself when `sort_batch` is off, THE stable descending sort by length when it is on) such
+that the reported sizes and ids are those of `s` and `refs`, read entry by entry in the layout the
+loader reports at that call (`batch_first` of `p`), cut back to the reported sizes is `s`'s
+sequences, every cell beyond holding the pad value; the tuple carries ids iff `suppress_uttids` is
+off at that call. -/
+theorem C14_lang_loader_lossless {β ι : Type} [DecidableEq β] (pad : β) (tok : β → β)
+    (data : Nat → List β × ι) (p : Present) (b : List Nat) :
+    let items := b.map (fun i => langItemUnder tok p (data i))
+    let out := langDeliver pad tok data p b
+    let rows := readRows out.2.1 items.length out.1.1
+    out.2.1 = p.batchFirst ∧ out.2.2 = (!p.suppressUttids) ∧
+    ∃ s : List (List β × ι),
+      s.Perm items ∧ (p.sortBatch = false → s = items) ∧
+      (p.sortBatch = true → IsStableDescSort (fun it : List β × ι => it.1.length) items s) ∧
+      out.1.2.1 = s.map (·.1.length) ∧ out.1.2.2 = s.map (·.2) ∧
+      cutBack rows out.1.2.1 = s.map (·.1) ∧ padCellsOk pad rows out.1.2.1 = true := by
+  intro items out rows
+  refine ⟨rfl, rfl, ?_⟩
+  cases hbf : p.batchFirst with
+  | true =>
+    have ho : out.1 = langCollate pad p.sortBatch items := by
+      show (langDeliver pad tok data p b).1 = _
+      simp only [langDeliver, hbf, ↓reduceIte]
+      rfl
+    have hr : rows = (langCollate pad p.sortBatch items).1 := by
+      show readRows (langDeliver pad tok data p b).2.1 _ (langDeliver pad tok data p b).1.1 = _
+      simp only [langDeliver, hbf, readRows, ↓reduceIte]
+      rfl
+    rw [hr, ho]
+    exact collate_lang_bf_lossless pad p.sortBatch items
+  | false =>
+    have ho : out.1 = langCollateTF pad p.sortBatch items := by
+      show (langDeliver pad tok data p b).1 = _
+      simp only [langDeliver, hbf, Bool.false_eq_true, ↓reduceIte]
+      rfl
+    have hr : rows = columns items.length (langCollateTF pad p.sortBatch items).1 := by
+      show readRows (langDeliver pad tok data p b).2.1 _ (langDeliver pad tok data p b).1.1 = _
+      simp only [langDeliver, hbf, readRows, Bool.false_eq_true, ↓reduceIte]
+      rfl
+    rw [hr, ho]
+    exact C14_collate_lang_tf_lossless pad p.sortBatch items
+
+/-- **C14_collate_spect_tf_lossless** (was: only obtainable by rewriting): the statements of
+`C14_collate_spect` directly on the time-first layout - every padded member of
+`spect_seq_to_batch(.., batch_first=False)` read entry by entry (`columns`). -/
+theorem C14_collate_spect_tf_lossless {φ α ρ ι : Type} [DecidableEq φ] [DecidableEq α] [DecidableEq ρ]
+    (padF : φ) (padA : α) (padR : ρ) (sort : Bool) (items : List (SpectItem φ α ρ ι)) :
+    let tf := spectCollateTF padF padA padR sort items
+    ∃ s : List (SpectItem φ α ρ ι),
+      s.Perm items ∧ (sort = false → s = items) ∧
+      (sort = true → IsStableDescSort (fun it : SpectItem φ α ρ ι => it.feat.length) items s) ∧
+      tf.featSizes = s.map (·.feat.length) ∧ tf.uttids = s.map (·.uttid) ∧
+      cutBack (columns items.length tf.feats) tf.featSizes = s.map (·.feat) ∧
+      padCellsOk padF (columns items.length tf.feats) tf.featSizes = true ∧
+      (∀ a, tf.alis = some a →
+        ∃ al : List (List α), s.map (·.ali) = al.map some ∧
+          cutBack (columns items.length a) (al.map List.length) = al ∧
+          padCellsOk padA (columns items.length a) (al.map List.length) = true) ∧
+      (tf.alis = none → ∃ it ∈ items, it.ali = none) ∧
+      (∀ r, tf.refs = some r →
+        ∃ rl : List (List ρ), s.map (·.ref) = rl.map some ∧ tf.refSizes = some (rl.map List.length) ∧
+          cutBack (columns items.length r) (rl.map List.length) = rl ∧
+          padCellsOk padR (columns items.length r) (rl.map List.length) = true) ∧
+      (tf.refs = none → tf.refSizes = none ∧ ∃ it ∈ items, it.ref = none) := by
+  intro tf
+  have htf := C14_collate_spect_tf padF padA padR sort items
+  simp only at htf
+  obtain ⟨t1, t2, _, t4, t5, t6, _⟩ := htf
+  have hperm : (if sort then sortDesc (fun it : SpectItem φ α ρ ι => it.feat.length) items else items).Perm items := by
+    cases sort
+    · simp
+    · simpa using sortDesc_perm _ items
+  refine ⟨if sort then sortDesc (fun it => it.feat.length) items else items, hperm, ?_, ?_, ?_, ?_, ?_, ?_, ?_, ?_, ?_, ?_⟩
+  · intro h; simp [h]
+  · intro h; subst h
+    simpa using sortDesc_isStable (fun it : SpectItem φ α ρ ι => it.feat.length) items
+  · show (spectCollateTF padF padA padR sort items).featSizes = _
+    simp [spectCollateTF]
+  · show (spectCollateTF padF padA padR sort items).uttids = _
+    simp [spectCollateTF]
+  · show cutBack (columns items.length (spectCollateTF padF padA padR sort items).feats)
+      (spectCollateTF padF padA padR sort items).featSizes = _
+    rw [t4, t1]
+    exact cutBack_padSequence_map padF (fun it : SpectItem φ α ρ ι => it.feat) _
+  · show padCellsOk padF (columns items.length (spectCollateTF padF padA padR sort items).feats)
+      (spectCollateTF padF padA padR sort items).featSizes = true
+    rw [t4, t1]
+    exact padCellsOk_padSequence_map padF (fun it : SpectItem φ α ρ ι => it.feat) _
+  · intro a ha
+    have ha' : (spectCollateTF padF padA padR sort items).alis = some a := ha
+    rw [ha'] at t5
+    have hb : (spectCollate padF padA padR sort items).alis = some (columns items.length a) := t5.symm
+    simp only [spectCollate, Option.map_eq_some_iff] at hb
+    obtain ⟨al, h1, h2⟩ := hb
+    refine ⟨al, allSome_eq_some h1, ?_, ?_⟩
+    · rw [← h2]; exact cutBack_padSequence padA al
+    · rw [← h2]; exact padCellsOk_padSequence padA al
+  · intro ha
+    have ha' : (spectCollateTF padF padA padR sort items).alis = none := ha
+    rw [ha'] at t5
+    have hb : (spectCollate padF padA padR sort items).alis = none := t5.symm
+    simp only [spectCollate, Option.map_eq_none_iff] at hb
+    obtain ⟨it, hit, hn⟩ := List.mem_map.1 (allSome_eq_none hb)
+    exact ⟨it, hperm.subset hit, hn⟩
+  · intro r hr
+    have hr' : (spectCollateTF padF padA padR sort items).refs = some r := hr
+    rw [hr'] at t6
+    have hb : (spectCollate padF padA padR sort items).refs = some (columns items.length r) := t6.symm
+    simp only [spectCollate, Option.map_eq_some_iff] at hb
+    obtain ⟨rl, h1, h2⟩ := hb
+    refine ⟨rl, allSome_eq_some h1, ?_, ?_, ?_⟩
+    · show (spectCollateTF padF padA padR sort items).refSizes = _
+      rw [t2]
+      simp [spectCollate, h1]
+    · rw [← h2]; exact cutBack_padSequence padR rl
+    · rw [← h2]; exact padCellsOk_padSequence padR rl
+  · intro hr
+    have hr' : (spectCollateTF padF padA padR sort items).refs = none := hr
+    rw [hr'] at t6
+    have hb : (spectCollate padF padA padR sort items).refs = none := t6.symm
+    simp only [spectCollate, Option.map_eq_none_iff] at hb
+    obtain ⟨it, hit, hn⟩ := List.mem_map.1 (allSome_eq_none hb)
+    refine ⟨?_, it, hperm.subset hit, hn⟩
+    show (spectCollateTF padF padA padR sort items).refSizes = none
+    rw [t2]
+    simp [spectCollate, hb]
+
+
+/-- Batch-first counterpart of `C14_collate_spect_tf_lossless` (`C14_collate_spect` with the
+stable-sort clause and the explicit arrangement). -/
+theorem collate_spect_bf_lossless {φ α ρ ι : Type} [DecidableEq φ] [DecidableEq α] [DecidableEq ρ]
+    (padF : φ) (padA : α) (padR : ρ) (sort : Bool) (items : List (SpectItem φ α ρ ι)) :
+    let bf := spectCollate padF padA padR sort items
+    ∃ s : List (SpectItem φ α ρ ι),
+      s.Perm items ∧ (sort = false → s = items) ∧
+      (sort = true → IsStableDescSort (fun it : SpectItem φ α ρ ι => it.feat.length) items s) ∧
+      bf.featSizes = s.map (·.feat.length) ∧ bf.uttids = s.map (·.uttid) ∧
+      cutBack bf.feats bf.featSizes = s.map (·.feat) ∧
+      padCellsOk padF bf.feats bf.featSizes = true ∧
+      (∀ a, bf.alis = some a →
+        ∃ al : List (List α), s.map (·.ali) = al.map some ∧
+          cutBack a (al.map List.length) = al ∧ padCellsOk padA a (al.map List.length) = true) ∧
+      (bf.alis = none → ∃ it ∈ items, it.ali = none) ∧
+      (∀ r, bf.refs = some r →
+        ∃ rl : List (List ρ), s.map (·.ref) = rl.map some ∧ bf.refSizes = some (rl.map List.length) ∧
+          cutBack r (rl.map List.length) = rl ∧ padCellsOk padR r (rl.map List.length) = true) ∧
+      (bf.refs = none → bf.refSizes = none ∧ ∃ it ∈ items, it.ref = none) := by
+  intro bf
+  have hperm : (if sort then sortDesc (fun it : SpectItem φ α ρ ι => it.feat.length) items else items).Perm items := by
+    cases sort
+    · simp
+    · simpa using sortDesc_perm _ items
+  refine ⟨if sort then sortDesc (fun it => it.feat.length) items else items, hperm, ?_, ?_, ?_, ?_, ?_, ?_, ?_, ?_, ?_, ?_⟩
+  · intro h; simp [h]
+  · intro h; subst h
+    simpa using sortDesc_isStable (fun it : SpectItem φ α ρ ι => it.feat.length) items
+  · show (spectCollate padF padA padR sort items).featSizes = _
+    simp [spectCollate]
+  · show (spectCollate padF padA padR sort items).uttids = _
+    simp [spectCollate]
+  · exact cutBack_padSequence_map padF (fun it : SpectItem φ α ρ ι => it.feat) _
+  · exact padCellsOk_padSequence_map padF (fun it : SpectItem φ α ρ ι => it.feat) _
+  · intro a ha
+    have ha' : (spectCollate padF padA padR sort items).alis = some a := ha
+    simp only [spectCollate, Option.map_eq_some_iff] at ha'
+    obtain ⟨al, h1, rfl⟩ := ha'
+    exact ⟨al, allSome_eq_some h1, cutBack_padSequence padA al, padCellsOk_padSequence padA al⟩
+  · intro ha
+    have ha' : (spectCollate padF padA padR sort items).alis = none := ha
+    simp only [spectCollate, Option.map_eq_none_iff] at ha'
+    obtain ⟨it, hit, hn⟩ := List.mem_map.1 (allSome_eq_none ha')
+    exact ⟨it, hperm.subset hit, hn⟩
+  · intro r hr
+    have hr' : (spectCollate padF padA padR sort items).refs = some r := hr
+    simp only [spectCollate, Option.map_eq_some_iff] at hr'
+    obtain ⟨rl, h1, rfl⟩ := hr'
+    refine ⟨rl, allSome_eq_some h1, ?_, cutBack_padSequence padR rl, padCellsOk_padSequence padR rl⟩
+    show (spectCollate padF padA padR sort items).refSizes = _
+    simp [spectCollate, h1]
+  · intro hr
+    have hr' : (spectCollate padF padA padR sort items).refs = none := hr
+    simp only [spectCollate, Option.map_eq_none_iff] at hr'
+    obtain ⟨it, hit, hn⟩ := List.mem_map.1 (allSome_eq_none hr')
+    refine ⟨?_, it, hperm.subset hit, hn⟩
+    show (spectCollate padF padA padR sort items).refSizes = none
+    simp [spectCollate, hr']
+
+/-- **C14_spect_loader_lossless**: what `SpectDataLoader.collate_fn` hands back for an index batch
+`b` under the flags `p` in force at the call (`spectDeliver`). `items` = the data set's elements for
+`b` as presented under `p` (`suppress_alis`: no alignment; `tokens_only`: references without their
+segment columns). ALL members follow ONE arrangement `s` of `items` (`items` itself, or THE stable
+descending sort by feature length when `sort_batch` is on at the call); read entry by entry in the
+layout the loader reports at the call, `feats`, `alis`, `refs` cut back to their sizes are the
+tensors of `s`, padding cells hold the pad values; `alis` / `refs` are `None` only if an element
+lacks one; the tuple carries `alis` / `uttids` iff the `suppress_*` flag is off at the call. -/
+theorem C14_spect_loader_lossless {φ α ρ ι : Type} [DecidableEq φ] [DecidableEq α] [DecidableEq ρ]
+    (padF : φ) (padA : α) (padR : ρ) (tok : ρ → ρ) (data : Nat → SpectItem φ α ρ ι) (p : Present)
+    (b : List Nat) :
+    let items := b.map (fun i => spectItemUnder tok p (data i))
+    let out := spectDeliver padF padA padR tok data p b
+    out.batchFirst = p.batchFirst ∧ out.hasAlis = (!p.suppressAlis) ∧ out.hasUttids = (!p.suppressUttids) ∧
+    ∃ s : List (SpectItem φ α ρ ι),
+      s.Perm items ∧ (p.sortBatch = false → s = items) ∧
+      (p.sortBatch = true → IsStableDescSort (fun it : SpectItem φ α ρ ι => it.feat.length) items s) ∧
+      out.batch.featSizes = s.map (·.feat.length) ∧ out.batch.uttids = s.map (·.uttid) ∧
+      cutBack (readRows out.batchFirst items.length out.batch.feats) out.batch.featSizes = s.map (·.feat) ∧
+      padCellsOk padF (readRows out.batchFirst items.length out.batch.feats) out.batch.featSizes = true ∧
+      (∀ a, out.batch.alis = some a →
+        ∃ al : List (List α), s.map (·.ali) = al.map some ∧
+          cutBack (readRows out.batchFirst items.length a) (al.map List.length) = al ∧
+          padCellsOk padA (readRows out.batchFirst items.length a) (al.map List.length) = true) ∧
+      (out.batch.alis = none → ∃ it ∈ items, it.ali = none) ∧
+      (∀ r, out.batch.refs = some r →
+        ∃ rl : List (List ρ), s.map (·.ref) = rl.map some ∧
+          out.batch.refSizes = some (rl.map List.length) ∧
+          cutBack (readRows out.batchFirst items.length r) (rl.map List.length) = rl ∧
+          padCellsOk padR (readRows out.batchFirst items.length r) (rl.map List.length) = true) ∧
+      (out.batch.refs = none → out.batch.refSizes = none ∧ ∃ it ∈ items, it.ref = none) := by
+  intro items out
+  refine ⟨rfl, rfl, rfl, ?_⟩
+  cases hbf : p.batchFirst with
+  | true =>
+    have ho : out = ⟨spectCollate padF padA padR p.sortBatch items, true, !p.suppressAlis, !p.suppressUttids⟩ := by
+      show spectDeliver padF padA padR tok data p b = _
+      simp only [spectDeliver, hbf, ↓reduceIte]
+      rfl
+    rw [ho]
+    simp only [readRows, ↓reduceIte]
+    exact collate_spect_bf_lossless padF padA padR p.sortBatch items
+  | false =>
+    have ho : out = ⟨spectCollateTF padF padA padR p.sortBatch items, false, !p.suppressAlis, !p.suppressUttids⟩ := by
+      show spectDeliver padF padA padR tok data p b = _
+      simp only [spectDeliver, hbf, Bool.false_eq_true, ↓reduceIte]
+      rfl
+    rw [ho]
+    simp only [readRows, Bool.false_eq_true, ↓reduceIte]
+    exact C14_collate_spect_tf_lossless padF padA padR p.sortBatch items
+
+/-! ### the hypotheses are satisfiable; the flags at the call decide: the loader of the previous
+examples (rank 1 of 3: epoch 0 has the batches `[[1], [4]]`, epoch 1 has `[[2, 3]]`), constructed
+time-first / unsorted; `sort_batch` is switched on BETWEEN the two batches of a live iterator,
+`batch_first` after it. -/
+def exFlags : Present := ⟨false, false, true, false, true⟩
+def exView : List VOp :=
+  [.io .newIter, .io (.next 0), .assign .sortBatch true, .io (.next 0), .assign .batchFirst true,
+   .io (.setEpoch 1), .io .newIter, .io (.next 1)]
+
+/-- the flags paired with the three `next` calls: as constructed; `sort_batch` on; both on -/
+example : ((View.exec exPerm exView (View.new exLoader exFlags)).1.map (fun e => e.2.2)).map
+      (fun q => (q.batchFirst, q.sortBatch))
+    = [(false, false), (false, false), (false, true), (false, true), (true, true), (true, true), (true, true),
+       (true, true)] := by
+  simp [exView, View.exec, View.step, View.new, Present.set, exFlags]
+
+/-- `C14_collate_call_time` applied: the second `next(it_0)` (position 3) hands out the index batch
+`[4]` under the flags with `sort_batch` on - although the iterator was created and started before
+the assignment -, the later assignment of `batch_first` is not seen. -/
+example : (View.exec exPerm exView (View.new exLoader exFlags)).1[3]?
+    = some (VOp.io (.next 0),
+        (Session.step exPerm (.next 0)
+          (Session.exec exPerm (ioOps [.io .newIter, .io (.next 0), .assign .sortBatch true]) (Session.new exLoader)).2).1,
+        presentAfter exFlags [.io .newIter, .io (.next 0), .assign .sortBatch true]) :=
+  C14_collate_call_time exPerm [.io .newIter, .io (.next 0), .assign .sortBatch true]
+    [.assign .batchFirst true, .io (.setEpoch 1), .io .newIter, .io (.next 1)] (.next 0)
+    (View.new exLoader exFlags) (by decide)
+example : presentAfter exFlags [.io .newIter, .io (.next 0), .assign .sortBatch true]
+    = ⟨false, true, true, false, true⟩ := rfl
+
+/-- `C14_assign_eq_construct` applied: two assignments right after construction = constructed with them -/
+example := C14_assign_eq_construct exPerm [.io .newIter, .io (.next 0), .io .len]
+  [(.batchFirst, true), (.suppressUttids, true)] (Session.new exLoader) exFlags
+example : ([(Attr.batchFirst, true), (Attr.suppressUttids, true)].foldl (fun q x => q.set x.1 x.2) exFlags)
+    = ⟨true, false, true, true, true⟩ := rfl
+
+/-- `C14_attr_frame` applied: `exView` without its assignments is a `Session` script -/
+example : ioOps exView = [.newIter, .next 0, .next 0, .setEpoch 1, .newIter, .next 1] := rfl
+example := C14_attr_frame exPerm exView (View.new exLoader exFlags) (by decide)
+
+/-- `C14_lang_loader_lossless` / `langDeliver` on a concrete batch: three utterances (ids 0, 1, 2 with
+lengths 1, 2, 1), `sort_batch` on, time-first: the columns of `refs` are the sorted sequences, ties
+(utterances 0 and 2) in sampler order. -/
+def exLang : Nat → List Int × Nat := fun i => (if i = 1 then [21, 22] else [10 * (i + 1 : Nat)], i)
+example : langDeliver (-100 : Int) id exLang ⟨false, true, true, false, true⟩ [0, 1, 2]
+    = (([[21, 10, 30], [22, -100, -100]], [2, 1, 1], [1, 0, 2]), false, true) := by decide
+example : readRows false 3 [[21, 10, 30], [22, -100, -100]] = [[21, 22], [10, -100], [30, -100]] := by decide
+/-- the same batch with the flags as constructed (`exFlags` but batch-first): input order, `[n][t]` -/
+example : langDeliver (-100 : Int) id exLang ⟨true, false, true, true, true⟩ [0, 1, 2]
+    = (([[10, -100], [21, 22], [30, -100]], [1, 2, 1], [0, 1, 2]), true, false) := by decide
+
+/-- `spectDeliver` with `suppress_alis` off and `tokens_only` on (`tok` keeps the first column):
+time-first, sorted by feature length -/
+def exSpect : Nat → SpectItem Int Int (List Int) Nat := fun i =>
+  if i = 0 then ⟨[1], some [7], some [[5, 0, 1], [6, 1, 2]], 0⟩ else ⟨[2, 3], some [8, 9], some [[4, 0, 2]], 1⟩
+example :
+    let out := spectDeliver (0 : Int) (-100 : Int) ([-100] : List Int) (fun r => r.take 1) exSpect
+      ⟨false, true, false, false, true⟩ [0, 1]
+    out.batch.feats = [[2, 1], [3, 0]] ∧ out.batch.alis = some [[8, 7], [9, -100]] ∧
+    out.batch.refs = some [[[4], [5]], [[-100], [6]]] ∧ out.batch.featSizes = [2, 1] ∧
+    out.batch.refSizes = some [1, 2] ∧ out.batch.uttids = [1, 0] ∧ out.batchFirst = false ∧
+    out.hasAlis = true ∧ out.hasUttids = true := by decide
+
 end PdtVerif.Batching
